@@ -266,3 +266,133 @@ def follow (evs : List Ev) : List String :=
   (evs.foldl followStep ⟨[], fun _ => 0, []⟩).bad
 
 end Witverif.Async.Host
+
+/-! ## Stream / future ends (DESIGN Appendix B, copy state machine) — C19 / C20
+
+One guest end of a payload stream or future whose peer is the host (harness/rt-native/src/chan_host.rs
+is the same text).  Rule layer only: what any conforming host may answer and when it traps; the
+scripted resolution (which legal answer the mock picks) is `Async/ChanScript.lean`. -/
+namespace Witverif.Async.Host
+
+def BLOCKED : Nat := 4294967295
+def COMPLETED : Nat := 0
+def DROPPED : Nat := 1
+def CANCELLED : Nat := 2
+
+/-- `code | count << 4` -/
+def packCode (base k : Nat) : Nat := base + 16 * k
+def codeBase (code : Nat) : Nat := code % 16
+def codeCount (code : Nat) : Nat := code / 16
+
+inductive CopySt | idle | copying | done
+deriving DecidableEq, Repr
+
+inductive ETrap
+  | copyWhileCopying | copyAfterDone | cancelNotCopying | cancelInSet | dropWhileCopying | futureWriterUnwritten
+deriving DecidableEq, Repr
+
+def ETrap.name : ETrap → String
+  | .copyWhileCopying => "copy-while-copying" | .copyAfterDone => "copy-after-done"
+  | .cancelNotCopying => "cancel-not-copying" | .cancelInSet => "cancel-while-in-set"
+  | .dropWhileCopying => "drop-while-copying" | .futureWriterUnwritten => "future-writer-dropped-unwritten"
+
+structure End where
+  fut : Bool                   -- future (one value, codes carry no count) / stream
+  writer : Bool                -- the guest holds the writable end
+  st : CopySt := .idle
+  n : Nat := 0                 -- size of the guest buffer of the copy in flight
+  progress : Nat := 0          -- items moved so far in that copy
+  pending : Option Nat := none -- code of the not-yet-delivered event
+  set : Nat := 0
+deriving DecidableEq, Repr
+
+namespace End
+
+/-- the event code of this kind of end -/
+def eventCode (e : End) : Nat :=
+  match e.fut, e.writer with
+  | false, false => EVENT_STREAM_READ | false, true => EVENT_STREAM_WRITE
+  | true, false => EVENT_FUTURE_READ | true, true => EVENT_FUTURE_WRITE
+
+/-- Rule: `read`/`write` trap unless the end is idle. -/
+def copyTrap (e : End) : Option ETrap :=
+  match e.st with
+  | .idle => none
+  | .copying => some .copyWhileCopying
+  | .done => some .copyAfterDone
+
+/-- Rule: the immediate answer to a copy of `n` items: BLOCKED, COMPLETED|k with `k ≤ n` and `k ≥ 1`
+unless `n = 0`, or DROPPED (the peer was already gone: nothing moved).  Futures: `n = 1`, no count in
+the code, and a reader never sees DROPPED (a future's writer cannot be dropped before it wrote). -/
+def legalImmediate (e : End) (n ans : Nat) : Bool :=
+  if e.fut then ans == BLOCKED || ans == COMPLETED || (e.writer && ans == DROPPED)
+  else ans == BLOCKED || ans == DROPPED ||
+    (codeBase ans == COMPLETED && decide (codeCount ans ≤ n) && (decide (1 ≤ codeCount ans) || n == 0))
+
+/-- the state of an end after the guest learned `code` (at once, by event, or as a cancel result) -/
+def stAfter (fut : Bool) (code : Nat) : CopySt :=
+  if code == BLOCKED then .copying
+  else if codeBase code == DROPPED || (fut && codeBase code == COMPLETED) then .done
+  else .idle
+
+def afterCopy (e : End) (n ans : Nat) : End :=
+  if ans == BLOCKED then { e with st := .copying, n := n, progress := 0, pending := none }
+  else { e with st := stAfter e.fut ans, n := 0, progress := 0, pending := none }
+
+/-- Rule: while the end is copying the peer may move `k` more items (`progress + k ≤ n`; a copy of
+zero items is completed by a zero move, once); the ONE pending event then carries the total. -/
+def legalXfer (e : End) (k : Nat) : Bool :=
+  e.st == .copying && decide (e.progress + k ≤ e.n) &&
+  (decide (1 ≤ k) || (e.n == 0 && e.pending.isNone)) &&
+  -- nothing moves after the peer dropped
+  (match e.pending with | some p => codeBase p != DROPPED | none => true)
+
+def afterXfer (e : End) (k : Nat) : End :=
+  { e with progress := e.progress + k,
+           pending := some (if e.fut then COMPLETED else packCode COMPLETED (e.progress + k)) }
+
+/-- Rule: the peer may drop while the end is copying: the pending event becomes DROPPED|progress
+(a future whose value already went through stays COMPLETED). -/
+def legalPeerDrop (e : End) : Bool :=
+  e.st == .copying && (e.writer || !e.fut) &&
+  (match e.pending with | some p => codeBase p != DROPPED | none => true)
+
+def afterPeerDrop (e : End) : End :=
+  if e.fut && e.pending.isSome then e
+  else { e with pending := some (if e.fut then DROPPED else packCode DROPPED e.progress) }
+
+/-- taking the pending event for delivery: the end leaves `copying` -/
+def takeEvent (e : End) : Option (Nat × End) :=
+  match e.pending with
+  | none => none
+  | some p => some (p, { e with pending := none, st := stAfter e.fut p, n := 0, progress := 0 })
+
+/-- Rule: `cancel-read` / `cancel-write` trap unless copying; (R) and if the end is still in a waitable set. -/
+def cancelTrap (e : End) : Option ETrap :=
+  if e.st != .copying then some .cancelNotCopying
+  else if e.set != 0 then some .cancelInSet
+  else none
+
+/-- Rule: what a (synchronous) cancel may return: the undelivered event's code if there is one;
+otherwise the host resolves the race now — CANCELLED|k, COMPLETED|k or DROPPED|k with `k ≤ n`
+(`k ≥ 1` for a COMPLETED unless `n = 0`); futures: CANCELLED, COMPLETED, and DROPPED for a writer. -/
+def legalCancelRet (e : End) (ans : Nat) : Bool :=
+  match e.pending with
+  | some p => ans == p
+  | none =>
+    if e.fut then ans == CANCELLED || ans == COMPLETED || (e.writer && ans == DROPPED)
+    else decide (codeCount ans ≤ e.n) &&
+      (codeBase ans == CANCELLED || codeBase ans == DROPPED ||
+       (codeBase ans == COMPLETED && (decide (1 ≤ codeCount ans) || e.n == 0)))
+
+def afterCancel (e : End) (ans : Nat) : End :=
+  { e with st := stAfter e.fut ans, n := 0, progress := 0, pending := none }
+
+/-- Rule: `drop-readable` / `drop-writable` trap while copying; `future.drop-writable` also unless done. -/
+def dropTrap (e : End) : Option ETrap :=
+  if e.st == .copying then some .dropWhileCopying
+  else if e.fut && e.writer && e.st != .done then some .futureWriterUnwritten
+  else none
+
+end End
+end Witverif.Async.Host
